@@ -5,7 +5,7 @@
    Model: Yaml/Walk.v (walker, generic in sources and visitor) + Yaml/Merge2.v (Merger visitor, directives).
    [sch] (openapi projection), [opts] (infer / prepend / AssociativeSequenceKeys) and [nonstr]
    (yaml.IsValueNonString) are universally quantified parameters. *)
-From KV Require Import Yaml.Walk Yaml.WalkProofs Yaml.WalkFields Yaml.Merge2 Yaml.Merge2Proofs Yaml.Merge2Identity Yaml.Merge2IdentityProofs Yaml.Merge2Idem
+From KV Require Import Yaml.Walk Yaml.WalkProofs Yaml.WalkFields Yaml.Merge2 Yaml.Merge2Proofs Yaml.Merge2Identity Yaml.Merge2IdentityProofs Yaml.Merge2Idem Yaml.SmpSpec Yaml.Merge2Spec
      Yaml.Merge2Frame Yaml.Merge2Examples Corr.SchemaTable Yaml.Merge3 Yaml.Merge3Examples Yaml.WalkGenProofs Gen.WalkTables.
 
 (* merge2.Merge at the canonical fuel S(sum of depths) never runs out of fuel: for every schema, option
@@ -110,6 +110,26 @@ Theorem C04_idempotent_partial :
       merge2 sch opts nonstr (Some p) (Some r) = Ok (Some r).
 Proof. exact (@merge2_idempotent). Qed.
 Print Assumptions C04_idempotent_partial.
+
+(* Refinement to the reference semantics [smp_spec] of Yaml/SmpSpec.v (typed JSON values; maps recursive with the
+   target's order kept and new keys appended sorted, scalars and atomic lists replace, null deletes, "$patch: delete"
+   deletes, added mappings lose their nulls, unmentioned implicit nulls go -- the last clause is the recorded finding
+   C04/frame/unmentioned-null-field-dropped written into the reference).
+   PROVED PART (partial): on [spec_fragment p t = idem_fragment p t && tagged p && tagged t] ([tagged]: every scalar
+   reached through mappings carries a tag, true of every parsed document; then [to_json] does not see the style
+   changes documented in C04_quote11_same_value / C04_scalar_replace_refuted) and kinds with atomic lists.
+   Guards vs findings: tagged + to_json hide "scalar-type-follows-target-quoting"; no keyed lists excludes
+   "replace-directive-on-keyed-list-element" and "list-directive-copied-when-target-list-absent".
+   MISSING: "$patch: replace|merge", keyed lists. Non-vacuity: refines_example (Yaml/Merge2Spec.v). *)
+Theorem C04_refines_spec_partial :
+  forall (Sc : Type) (sch : schema Sc) (opts : wopts) (nonstr : string -> bool),
+    atomic_lists sch opts ->
+    forall p t r : node,
+      spec_fragment p t = true ->
+      merge2 sch opts nonstr (Some p) (Some t) = Ok (Some r) ->
+      Some (to_json r) = smp_spec (to_json p) (Some (to_json t)).
+Proof. exact (@merge2_refines_spec). Qed.
+Print Assumptions C04_refines_spec_partial.
 
 (* "replaces what $patch: replace addresses" is FALSE for an element of a keyed list in prepend mode
    (the mode kustomize builds use): the element is left exactly as it was
